@@ -60,7 +60,7 @@ def run(chk, replay=None):
     hx = build_hx('hx_roundtrip', lib)
     leandir, ok, out, changed = standard_lean(chk, 'C04')
     chk.assumptions += [
-        'the Lean part models two uniqueness checks (component names in traversal order, collected ids); every other rule is exercised on the implementation only: valid-by-construction documents must be accepted with zero issues and every injected single-rule violation must raise an error citing one of the rules listed for it',
+        'the Lean part models two uniqueness checks (component names in traversal order, collected ids) and the identifier syntax; every other rule is exercised on the implementation only: valid-by-construction documents must be accepted with zero issues and every injected single-rule violation must raise an error citing one of the rules listed for it',
         'faults are injected as additional elements (a new variable, math block, reset, units, component, connection or import) at a random applicable location: top-level or encapsulated component, first or last child; the W3C MathML DTD inside libxml2 is not modelled',
         'the documents go through the strict parser first, so only faults that the model can hold are injected']
     chk.cov['trusted_base'] += ['harness/hx_roundtrip.cpp + lean/Cellml/Engine/Valid.lean', 'pygen/docs.py (valid-by-construction documents), fault catalogue in checks/C04.py', 'gen/tables.py (rule enumerators)']
@@ -174,6 +174,17 @@ def run(chk, replay=None):
             res = validate(doc)
             got = sorted(re.search(r"attribute '([^']*)'", i[2]).group(1) for i in res[1] if i[1] == 'XML_ID_ATTRIBUTE') if res else None
             lines.append('(ids %s)' % ' '.join('#' + x.encode().hex() for x in ids)); expect.append(','.join(got) if got else '-')
+        # identifier syntax: the rule (if any) under which a component name is rejected
+        alphabet = ['a', 'Z', 'q', '0', '9', '_', '-', ' ', '.', ':', 'é', 'µ', '٣', '__', 'x1']
+        idnames = ['', '_', '1', 'a', '_1', '1_', 'a b', 'é', 'a-1', '0x', 'A_9z']
+        idnames += [''.join(rng.choice(alphabet) for _ in range(rng.randint(1, 5))) for _ in range(60 if chk.tier == 'quick' else 600)]
+        reason = [('must contain one or more basic Latin alphabetic characters', 'empty'), ('must not begin with a European numeric character', 'begins_with_digit'),
+                  ('must not contain any characters other than [a-zA-Z0-9_]', 'not_latin_alphanumeric')]
+        for nm in idnames:
+            doc = '<?xml version="1.0" encoding="UTF-8"?>\n<model xmlns="http://www.cellml.org/cellml/2.0#" name="m"><component name="%s"/></model>' % nm
+            res = validate(doc)
+            got = sorted({r_ for i in res[1] if i[1].startswith('COMPONENT_NAME') for t_, r_ in reason if t_ in i[2]}) if res else ['crash']
+            lines.append('(ident #%s)' % nm.encode().hex()); expect.append(','.join(got) if got else 'ok')
         model = run_lines(drv, ['valid'], lines)[1] if os.path.exists(drv) else [''] * len(lines)
         for l, e, m in zip(lines, expect, model):
             if e != m:
